@@ -1,5 +1,8 @@
 import PfModel.DriverLib
 import PfModel.Model.Sweep
+import PfModel.Lemmas.SweepProductEnum
+import PfModel.Model.SweepCount
+import PfModel.Lemmas.SweepFilteredPlain3
 /-! Driver for C17 (`sweep.ops`). Run: `lake env lean --run Driver/C17.lean < requests.jsonl`.
 
 Values are small integers, strings, `None` and tagged pairs (the results of the menu derivers); derivers and exclude
@@ -139,21 +142,61 @@ def handle (m : String) (a : Json) : R Json := do
   | "product" =>
     let s ← getSweep (← fld a "s")
     let others ← listF getSweep a "others"
+    -- the decidable hypotheses of `C17_product` (`ProductHyps` without the semantic `LocalFns`, which the harness decides
+    -- from the menu, and without the disjointness of constant / deriver names, which the harness decides from the case)
+    let ops := s :: others
+    let hyps := ops.all (fun o => wf o && !o.items.isEmpty && decide (effGroups o = gl o)) &&
+      (s.dims.isSome || others.all (fun o => o.dims.isNone))
+    let extra := [("hyps", jBool hyps), ("nominal", jBool (ops.all (fun o => decide (effGroups o = gl o)))),
+                  ("prodspec", if hyps then jList putCombo (prodAll (ops.map specList)) else Json.null),
+                  ("prodraw", if hyps then jList putCombo (prodAll (ops.map rawList)) else Json.null)]
     match product s others with
-    | .error e => return jObj [("err", jStr (errName e))]
-    | .ok p => return jObj [("ok", observe p)]
+    | .error e => return jObj ([("err", jStr (errName e))] ++ extra)
+    | .ok p => return jObj ([("ok", observe p), ("raw", jList putCombo (rawList p))] ++ extra)
   | "filtered" =>
     let s ← getSweep (← fld a "s")
     let ks ← listF asStr a "keys"
+    -- the right-hand side of `C17_filtered_derivers` / `C17_filtered_plain`: the distinct projections, first occurrence first
+    let proj : Json :=
+      if ks.isEmpty || !decide ks.Nodup then Json.null
+      else match generate s with
+        | .error _ => Json.null
+        | .ok combos => match projectAll ks combos with
+          | .error _ => Json.null
+          | .ok ps => jList putCombo (distinctFold ps)
+    -- the right-hand side of `C17_filtered_plain` under its (decidable) hypotheses
+    let plain : Json :=
+      if s.derivers.isNone && s.constants.isNone && s.exclude.isNone && wf s && ks.any (fun k => (keys s.items).contains k) then
+        match filtered s ks with
+        | .ok f =>
+          if s.dims.isNone || decide (effGroups f = (f.dims.getD []).map Group.keys) then
+            jList putCombo (distinctFold ((rawList s).map (restrict ks)))
+          else Json.null
+        | .error _ => Json.null
+      else Json.null
     match filtered s ks with
-    | .error e => return jObj [("err", jStr (errName e))]
-    | .ok p => return jObj [("ok", observe p)]
+    | .error e => return jObj [("err", jStr (errName e)), ("proj", proj), ("plain", plain)]
+    | .ok p => return jObj [("ok", observe p), ("proj", proj), ("plain", plain)]
   | "count" =>
     let s ← getSweep (← fld a "s")
     let deps ← listF (asPair asStr (asList asStr)) a "deps"
     match generate s with
     | .error e => return jObj [("err", jStr (errName e))]
     | .ok combos => return putExc putCounts (countSweep deps combos)
+  | "count_pipe" =>
+    -- `count_sweep` with `func_dependencies` / `root_args` taken from the pipeline model (`PF.Pipe`), not from the request
+    let s ← getSweep (← fld a "s")
+    let funcs ← listF (asPair asStr (asList asStr)) a "funcs"
+    let o ← strF a "output"
+    let fs : List PF.Pipe.Func := funcs.map fun (out, ps) =>
+      { name := out, params := ps.map (fun p => (p, p)), outputs := [out], defaults := [], bound := [] }
+    let deps := jOpt (jList (jPair jStr (jList jStr))) (countDeps fs o)
+    match generate s with
+    | .error e => return jObj [("deps", deps), ("counts", jObj [("err", jStr (errName e))])]
+    | .ok combos =>
+      match countSweepPipe fs o combos with
+      | none => return jObj [("err", jStr "KeyError")]
+      | some r => return jObj [("deps", deps), ("counts", putExc putCounts r)]
   | _ => .error s!"unknown entry {m}"
 
 def main : IO Unit := loop handle
